@@ -67,8 +67,9 @@ def run_both(chk, lines, name):
     return impl, model
 
 
-def shrink(chk, line, differs, rounds=40):
-    """Delta-debugging over the operation list: removes operations while `differs(impl_line, model_line)` holds."""
+def shrink(chk, line, differs, rounds=40, with_line=False):
+    """Delta-debugging over the operation list: removes operations while `differs(impl_line, model_line)` holds
+    (`differs(case_line, impl_line, model_line)` when with_line is set, for oracles that need the history)."""
     head, ops = split_history(line)
     for _ in range(rounds):
         cands = []
@@ -79,8 +80,8 @@ def shrink(chk, line, differs, rounds=40):
         lines = [join_history(head, c) for c in cands]
         impl, model = run_both(chk, lines, "shrink")
         hit = None
-        for c, a, b in zip(cands, impl, model):
-            if differs(a, b):
+        for c, ln, a, b in zip(cands, lines, impl, model):
+            if (differs(ln, a, b) if with_line else differs(a, b)):
                 hit = c
                 break
         if hit is None:
